@@ -1,13 +1,32 @@
 package scratch
-import ("testing";"fmt";"strings"
- "pgregory.net/rapid"
- "verif/harness/gen")
-func TestS(t *testing.T){
- n,hit:=0,0
- rapid.Check(t, func(rt *rapid.T){
-  ws:=gen.GenWorkspace(rt, gen.Config{})
-  n++
-  for _,s:=range ws.PrintAll(){ if strings.Contains(s,"MyField myField")||strings.Contains(s,".MyField myField") { hit++; if hit<3 {fmt.Println(s)}; break } }
- })
- fmt.Println("cases",n,"hit",hit)
+
+import (
+	"context"
+	"fmt"
+	"testing"
+
+	"github.com/bufbuild/protocompile"
+	"github.com/bufbuild/protocompile/protoutil"
+)
+
+func TestS(t *testing.T) {
+	src := `syntax = "proto2";
+import "google/protobuf/descriptor.proto";
+message Cfg { repeated int32 r = 1; optional Cfg c = 2; }
+extend google.protobuf.MessageOptions { optional Cfg cfg = 50000; }
+message M { option (cfg) = { r: [1, 2, 3] c { r: [4,5] } }; }
+`
+	for _, mode := range []protocompile.SourceInfoMode{5} {
+		c := protocompile.Compiler{Resolver: protocompile.WithStandardImports(&protocompile.SourceResolver{Accessor: protocompile.SourceAccessorFromMap(map[string]string{"a.proto": src})}), SourceInfoMode: mode}
+		fs, err := c.Compile(context.Background(), "a.proto")
+		if err != nil {
+			t.Fatal(err)
+		}
+		fd := protoutil.ProtoFromFileDescriptor(fs[0])
+		for _, l := range fd.SourceCodeInfo.Location {
+			if len(l.Path) > 4 && l.Path[0] == 4 && l.Path[1] == 1 {
+				fmt.Printf("  %v %v\n", l.Path, l.Span)
+			}
+		}
+	}
 }
